@@ -201,19 +201,19 @@ theorem fclaimE_succ {n : Nat} (hE : FClaimE n) (hB : FClaimB n) (hC : FClaimC n
       | succ k => exact simF_call hA hU hok he.2 hrel hseg
     | _ => simp [Ff] at he
   | fn ps rest body =>
-    have hfo : fnOk = true ∧ rest = none := by
+    have hfo : fnOk = true := by
       rw [Ff] at he
-      simp only [Bool.and_eq_true, Option.isNone_iff_eq_none] at he
-      exact ⟨he.1.1.1.1.1, he.1.1.1.1.2⟩
-    obtain ⟨rfl, rfl⟩ := hfo
-    exact simF_fn ps body he isFn c gs r hc hrel (hgen rfl) hseg
+      simp only [Bool.and_eq_true] at he
+      exact he.1.1.1.1.1
+    subst hfo
+    exact simF_fn ps rest body he isFn c gs r hc hrel (hgen rfl) hseg
   | defn name ps rest body =>
-    have hfo : fnOk = true ∧ rest = none := by
+    have hfo : fnOk = true := by
       rw [Ff] at he
-      simp only [Bool.and_eq_true, Option.isNone_iff_eq_none] at he
-      exact ⟨he.1.1.1.1.1.1.1, he.1.1.1.1.1.1.2⟩
-    obtain ⟨rfl, rfl⟩ := hfo
-    exact simF_defn name ps body he isFn c gs r hc hrel (hgen rfl) hseg
+      simp only [Bool.and_eq_true] at he
+      exact he.1.1.1.1.1.1.1
+    subst hfo
+    exact simF_defn name ps rest body he isFn c gs r hc hrel (hgen rfl) hseg
   | for_ label init test incr body =>
     rw [Ff] at he
     simp only [Bool.and_eq_true] at he
@@ -231,7 +231,7 @@ theorem fclaims_zero : FClaimE 0 ∧ FClaimB 0 ∧ FClaimC 0 ∧ FClaimA 0 ∧ F
     rw [Ref.evalCond]; trivial
   · intro args hargs fo hfo i m s rs env hrel
     rw [Ref.evalArgs]; trivial
-  · intro m s₁ rs₁ env vid vs D hrel hg hd hvs hlen
+  · intro m s₁ rs₁ env vid c vs D hrel hg hc hd hvs hlen
     rw [Ref.applyFn]; trivial
   · intro fnOk self isOr es hes isFn c gs r hc hfn m s rs env pre post hrel hgen hseg
     rw [Ref.evalAndOr]; trivial
